@@ -77,6 +77,7 @@ LEAVES += [
 _ONE = [("int", 1)]
 WRONG = [
     ("int", ("int", 5)), ("zero", ("int", 0)), ("negint", ("int", -3)), ("bigint", ("int", 987654)),
+    ("huge-int", ("int", 10 ** 400)),
     ("float", ("flt", 5, -1)), ("bool", ("bool", True)),
     ("str", ("str", "zz")), ("empty-str", ("str", "")), ("digit-str", ("str", "7")), ("str-semicolon", ("str", "q;r")),
     ("list", ("list", _ONE)), ("empty-list", ("list", [])),
@@ -120,7 +121,7 @@ def _set(leaf, ok, bad):
     if not G.is_hashable(bad):
         return None
     return ({"t": "set", "imm": False, "item": leaf, "sz": _NOSZ},
-            G.mk_set(False, [bad]), G.mk_set(False, [ok]), ())
+            ("set", False, [bad]), ("set", False, [ok]), ())
 
 
 def _map_key(leaf, ok, bad):
